@@ -798,7 +798,7 @@ var propertyPackages = map[string][]string{
 	"C04": {"internal/msgpipeline", "internal/modify", "internal/table", "framework/address", "framework/dns"},
 	"C05": {"internal/target/remote", "internal/smtpconn", "internal/smtpconn/pool", "framework/dns", "framework/future"},
 	"C06": {"internal/msgpipeline", "internal/check", "framework/config/module", "internal/target/remote", "internal/check/command", "internal/check/dnsbl", "internal/check/dns", "internal/check/dkim", "internal/check/spf", "internal/check/requiretls", "internal/check/authorize_sender", "internal/check/milter", "internal/check/rspamd"},
-	"C07": {"internal/dmarc", "internal/msgpipeline"},
+	"C07": {"internal/dmarc", "internal/msgpipeline", "internal/check/spf", "internal/check/dkim"},
 	"C09": {"internal/msgpipeline", "internal/smtpconn", "internal/target/remote", "internal/target/smtp", "internal/target/queue"},
 	"C10": {"internal/target/queue", "framework/buffer", "framework/module"},
 	"C11": {"internal/limits", "internal/limits/limiters", "internal/endpoint/smtp", "internal/target/remote"},
